@@ -490,7 +490,44 @@ def rule_whole_slice(ctx):
     ctx.floor("C05.h fetchmany paths", n, 2)
 
 
+def rule_row_format_by_cursor_class(ctx):
+    """C05.i: conn.cursor(cursor_class) hands out dict rows for the connector's DictCursor and tuple rows for the tuple cursor —
+    and for a caller's own subclass of the tuple cursor (a dict row is narrower than description when column names repeat)."""
+    from ..values import Ext
+
+    prog = ctx.prog
+    if not prog.has_fn("conn", "FakeSnowflakeConnection.cursor"):
+        return
+    fn = prog.fn("conn", "FakeSnowflakeConnection.cursor")
+    loc = prog.mod("conn").loc(fn)
+    n = 0
+    for label, cls, want in (("SnowflakeCursor", Ext("snowflake.connector.cursor.SnowflakeCursor"), False),
+                             ("DictCursor", Ext("snowflake.connector.cursor.DictCursor"), True),
+                             ("a caller's subclass of SnowflakeCursor", Ext("userpkg.cursors.AuditedTupleCursor"), False),
+                             ("(default)", None, False)):
+        def run(I, cls=cls):
+            duck, conn, cur = make_session()
+            return I.call(I.getattr(conn, "cursor"), [cls] if cls is not None else [], {}, None)
+
+        for p in explore(prog, lambda: ExecHooks(None), run, max_paths=8):
+            c2 = p.value
+            if p.outcome != "return" or not isinstance(c2, Obj):
+                continue
+            n += 1
+            flag = c2.attrs.get(R().dict_flag)
+            ok = isinstance(flag, Const) and bool(flag.v) is want
+            ctx.ob("C05.i", f"conn.cursor({label}) gives {'dict' if want else 'tuple'} rows", ok, loc, tagof(flag))
+            if not ok:
+                ctx.violation("C05.i", "conn", "FakeSnowflakeConnection.cursor", f"row format for {label}", loc,
+                              f"conn.cursor({label}) creates a cursor whose dict-row flag is `{tagof(flag)}` (expected {want}): "
+                              + ("a tuple cursor subclass gets dict rows, which lose a column whenever two result columns share a name and no longer line "
+                                 "up with description" if not want else "DictCursor rows must be dicts keyed by the description names"))
+            break
+    ctx.floor("C05.i cursor classes", n, 4)
+
+
 RULES = [
+    ("C05.i", rule_row_format_by_cursor_class, ("quick", "thorough")),
     ("C05.h", rule_whole_slice, ("quick", "thorough")),
     ("C05.g", rule_fresh_cursor, ("quick", "thorough")),
     ("C05.f", rule_pandas_all, ("quick", "thorough")),
